@@ -53,14 +53,48 @@ def strList (j : Json) (k : String) : Except String (List String) := do
   let a ← getArr j k
   a.toList.mapM fun x => match x with | .str s => pure s | _ => throw s!"{k}: not a string"
 
-def handleSerde (i o : Json) : Except String Verdict := do
+/-- the property's predicate on what the real code returned -/
+def specSerde (i o : Json) : Except String Verdict := do
+  if (o.getObjValAs? Bool "compileErr").toOption == some true then return .ok
+  let stage ← getStr i "stage"
+  let origJ ← getObj o "orig"
+  let ons ← parseNodes origJ
+  let oes ← parseEdges origJ
+  if let some e := optS o "serErr" then return .specfalse "serialize-failed" s!"{stage}: {e}"
+  let deser ← getStr o "deser"
+  if deser != "ok" then
+    let det := (optS o "deserDetail").getD ""
+    return .specfalse "deserialize-failed" s!"{stage}: DeserializeGraph {deser}: {det}"
+  let backJ ← getObj o "back"
+  let bns ← parseNodes backJ
+  let bes ← parseEdges backJ
+  -- the property on the implementation
+  if ons.length != bns.length then return .specfalse "roundtrip-object-count" s!"{stage}: {ons.length} objects before, {bns.length} after"
+  for (k, (a, b)) in (List.range ons.length).zip (ons.zip bns) do
+    if a.node.id != b.node.id then return .specfalse "roundtrip-id" s!"{stage}: node {k}: {a.node.id} vs {b.node.id}"
+    if a.node.parent != b.node.parent then return .specfalse "roundtrip-parent" s!"{stage}: node {k} ({a.node.id}): parent {a.node.parent} before, {b.node.parent} after"
+    if a.node.kids != b.node.kids then return .specfalse "roundtrip-children-order" s!"{stage}: node {k} ({a.node.id}): ChildrenArray {a.node.kids} before, {b.node.kids} after"
+    if a.map != b.map then return .specfalse "roundtrip-children-map" s!"{stage}: node {k} ({a.node.id}): Children {a.map} before, {b.map} after"
+    if a.node.attrs != b.node.attrs then return .specfalse "roundtrip-attributes" s!"{stage}: node {k} ({a.node.id}): the JSON of the object (attributes, geometry) differs after the round trip"
+  if oes.length != bes.length then return .specfalse "roundtrip-edge-count" s!"{stage}: {oes.length} edges before, {bes.length} after"
+  for (k, (a, b)) in (List.range oes.length).zip (oes.zip bes) do
+    if a.src != b.src || a.dst != b.dst then return .specfalse "roundtrip-endpoints" s!"{stage}: edge {k}: {a.src}->{a.dst} before, {b.src}->{b.dst} after"
+    if a.attrs != b.attrs then return .specfalse "roundtrip-edge-attributes" s!"{stage}: edge {k}: the JSON of the edge (index, arrows, route, attributes) differs after the round trip"
+  if (o.getObjValAs? Bool "rootLevel").toOption == some false then return .specfalse "roundtrip-rootlevel" s!"{stage}: RootLevel differs"
+  let cmp ← getStr o "compare"
+  if cmp != "" then return .specfalse "compare-serialized-graph" s!"{stage}: CompareSerializedGraph: {cmp}"
+  return .ok
+
+
+/-- model vs implementation -/
+def corrSerde (i o : Json) : Except String Verdict := do
   if (o.getObjValAs? Bool "compileErr").toOption == some true then return .ok
   let stage ← getStr i "stage"
   let origJ ← getObj o "orig"
   let ons ← parseNodes origJ
   let oes ← parseEdges origJ
   let g := mkGraph ons oes
-  if let some e := optS o "serErr" then return .specfalse "serialize-failed" s!"{stage}: {e}"
+  if (optS o "serErr").isSome then return .ok
   -- serialize: model vs Go
   let wire ← getObj o "wire"
   let sg := serialize g
@@ -85,10 +119,9 @@ def handleSerde (i o : Json) : Except String Verdict := do
   let deser ← getStr o "deser"
   let md := deserialize sg
   if deser != "ok" then
-    let det := (optS o "deserDetail").getD ""
     if md.isSome then
-      return .specfalse "deserialize-failed" s!"{stage}: DeserializeGraph {deser}: {det} (the model reads the graph back)"
-    return .specfalse "deserialize-nil-deref" s!"{stage}: DeserializeGraph {deser}: {det}"
+      return .mismatch "deserialize-go-failed" s!"{stage}: DeserializeGraph {deser}, the model reads the graph back"
+    return .ok
   let backJ ← getObj o "back"
   let bns ← parseNodes backJ
   let bes ← parseEdges backJ
@@ -99,22 +132,12 @@ def handleSerde (i o : Json) : Except String Verdict := do
     if !(m.sameAsB gb) then
       let bad := (List.range (max m.n gb.n)).find? fun k => m.node k != gb.node k
       return .mismatch "deserialize" s!"{stage}: model and Go disagree on the graph read back (first node {bad}: model {repr (bad.map m.node)} vs go {repr (bad.map gb.node)}; edges equal: {m.edges == gb.edges})"
-  -- the property on the implementation
-  if ons.length != bns.length then return .specfalse "roundtrip-object-count" s!"{stage}: {ons.length} objects before, {bns.length} after"
-  for (k, (a, b)) in (List.range ons.length).zip (ons.zip bns) do
-    if a.node.id != b.node.id then return .specfalse "roundtrip-id" s!"{stage}: node {k}: {a.node.id} vs {b.node.id}"
-    if a.node.parent != b.node.parent then return .specfalse "roundtrip-parent" s!"{stage}: node {k} ({a.node.id}): parent {a.node.parent} before, {b.node.parent} after"
-    if a.node.kids != b.node.kids then return .specfalse "roundtrip-children-order" s!"{stage}: node {k} ({a.node.id}): ChildrenArray {a.node.kids} before, {b.node.kids} after"
-    if a.map != b.map then return .specfalse "roundtrip-children-map" s!"{stage}: node {k} ({a.node.id}): Children {a.map} before, {b.map} after"
-    if a.node.attrs != b.node.attrs then return .specfalse "roundtrip-attributes" s!"{stage}: node {k} ({a.node.id}): the JSON of the object (attributes, geometry) differs after the round trip"
-  if oes.length != bes.length then return .specfalse "roundtrip-edge-count" s!"{stage}: {oes.length} edges before, {bes.length} after"
-  for (k, (a, b)) in (List.range oes.length).zip (oes.zip bes) do
-    if a.src != b.src || a.dst != b.dst then return .specfalse "roundtrip-endpoints" s!"{stage}: edge {k}: {a.src}->{a.dst} before, {b.src}->{b.dst} after"
-    if a.attrs != b.attrs then return .specfalse "roundtrip-edge-attributes" s!"{stage}: edge {k}: the JSON of the edge (index, arrows, route, attributes) differs after the round trip"
-  if (o.getObjValAs? Bool "rootLevel").toOption == some false then return .specfalse "roundtrip-rootlevel" s!"{stage}: RootLevel differs"
-  let cmp ← getStr o "compare"
-  if cmp != "" then return .specfalse "compare-serialized-graph" s!"{stage}: CompareSerializedGraph: {cmp}"
   return .ok
+
+def handleSerde (i o : Json) : Except String Verdict := do
+  match ← specSerde i o with
+  | .specfalse s d => return .specfalse s d
+  | _ => corrSerde i o
 
 def handleSvg (o : Json) : Except String Verdict := do
   let d ← getStr o "direct"
